@@ -54,8 +54,26 @@ def case_to_coq(c):
         return "DiffFed %s %s %s %s %s" % (loc, rem, coq_N(c["last"]), coq_list([f(x) for x in o["del"]]),
                                            coq_list([f(x) for x in o["ups"]]))
     fin = c["round"]["final"]
+    facl = lambda x: "(%s, %s, %s, %s)" % (hexb(x["id"]), hexb(x.get("hash", "")), coq_N(x["body"]), coq_bool(x.get("local", False)))
+    fcfg = lambda x: "(%s, %s, %s, %s)" % (hexb(x.get("kind", "")), hexb(x["id"]), coq_N(x.get("hash64", 0)), coq_N(x["body"]))
+    ffed = lambda x: "(%s, %s)" % (hexb(x["id"]), coq_N(x["body"]))
+    if c["kind"] in ("round2", "twosnap"):
+        fin2 = c["round2"]["final"]
+        rem2 = items(inst, c.get("remote2"))
+        ri, last, ri2 = coq_N(c["remote_index"]), coq_N(c["last"]), coq_N(c["remote_index2"])
+        if c["kind"] == "twosnap":
+            return "TwoSnap %s %s %s %s %s %s %s %s" % (loc, rem, items(inst, c.get("batch")), ri, last, rem2, ri2,
+                                                        coq_list([facl(x) for x in fin2]))
+        if is_acl(inst):
+            return "Round2ACL %s %s %s %s %s %s %s" % (loc, rem, ri, last, rem2, ri2, coq_list([facl(x) for x in fin2]))
+        if inst == "config":
+            return "Round2Cfg %s %s %s %s %s %s %s" % (loc, rem, ri, last, rem2, ri2, coq_list([fcfg(x) for x in fin2]))
+        return "Round2Fed %s %s %s %s %s %s %s" % (loc, rem, ri, last, rem2, ri2, coq_list([ffed(x) for x in fin2]))
+    if inst in ("policy", "role"):
+        return "RoundStore %s %s %s %s %s %s" % (loc, rem, coq_N(c["remote_index"]), coq_N(c["last"]),
+                                                 coq_list([facl(x) for x in fin]), coq_bool(c["round"]["err"] == ""))
     if is_acl(inst):
-        f = lambda x: "(%s, %s, %s, %s)" % (hexb(x["id"]), hexb(x.get("hash", "")), coq_N(x["body"]), coq_bool(x.get("local", False)))
+        f = facl
         return "RoundACL %s %s %s %s %s" % (loc, rem, coq_N(c["remote_index"]), coq_N(c["last"]), coq_list([f(x) for x in fin]))
     if inst == "config":
         f = lambda x: "(%s, %s, %s, %s)" % (hexb(x.get("kind", "")), hexb(x["id"]), coq_N(x.get("hash64", 0)), coq_N(x["body"]))
@@ -121,7 +139,7 @@ def digests(outs):
 
 def slim(c):
     """a case without bulky fields, for replays"""
-    return {k: c[k] for k in ("kind", "inst", "class", "local", "remote", "last", "remote_index", "out", "round",
+    return {k: c[k] for k in ("kind", "inst", "class", "local", "remote", "last", "remote_index", "remote2", "remote_index2", "batch", "out", "round", "round2",
                               "pre", "oracle", "signature") if k in c and c[k] is not None}
 
 
@@ -305,8 +323,8 @@ def run(ctx):
         "tables": tab_stats,
         "explicit_case_classes": dict(classes),
         "input_distribution": dist,
-        "real_rounds": len([c for c in cases if c["kind"] == "round"]),
+        "real_rounds": sum((2 if c.get("round2") else 1) for c in cases if c["kind"] in ("round", "round2", "twosnap")),
         "stage_seconds": stages,
-        "samples": [slim(c) for c in (coq_cases[:2] + [c for c in coq_cases if c["kind"] == "round"][:2])],
+        "samples": [slim(c) for c in (coq_cases[:2] + [c for c in coq_cases if c["kind"] == "round"][:1] + [c for c in coq_cases if c["kind"] == "round2"][:1])],
     })
     return ctx.finish(cov, assumptions)
